@@ -6,6 +6,9 @@ P(H, k) keeps, in order, the ops that (a) target the file written at step k or o
 import copy
 
 
+ENV_OPS = ('set_tz', 'seed_rng', 'set_log', 'set_clock')
+
+
 def owner_maps(history):
     lf_fid, h_lf = {}, {}
 
@@ -85,6 +88,8 @@ def project(history, steps, k, path=None, drop_kinds=('write',), keep_failed=Fal
 def _keep(op, st, fid, lf_fid, h_lf, drop_kinds, keep_failed):
     if op.get('op') in drop_kinds or op.get('op') in ('restart', 'flood', 'encode', 'cache_info'):
         return False
+    if op.get('op') in ENV_OPS:
+        return st is not None and st.get('out') == 'ok'      # the environment of the process belongs to every projection
     if op_fid(op, lf_fid, h_lf) != fid:
         return False
     if st is None:
